@@ -167,6 +167,7 @@ func runC03(r *Report) {
 	}
 
 	ruleBoundsSign(r)
+	ruleSkiplistShape(r)
 	ruleNewestFirst(r)
 	ruleWrap(r)
 	ruleFreshScanReader(r)
